@@ -1,7 +1,10 @@
 import Ecal.Model.ParserWF
 import Ecal.Model.TokenChannel
+import Ecal.Gen.C07
 import Ecal.Lemmas.ParserMain
 import Ecal.Lemmas.ParserShape
+import Ecal.Lemmas.ParserShapeS
+import Ecal.Lemmas.ParserWalk
 /-!
 # C07 — parsing is total: an error or a well-formed tree, and nothing left running
 -/
@@ -18,7 +21,7 @@ over every input text. The supporting invariant (`Ecal.Parse.specs`, one inducti
 /-- what the fuel-indexed parser returns for a given fuel -/
 theorem outcome (fuel : Nat) (ts : List Tok) :
     (∃ t, parseToksWith fuel ts = (some t, none) ∧ okTree t = true) ∨
-    (∃ e, parseToksWith fuel ts = (none, some e) ∧ e ≠ .panic ∧ (4 * ts.length + 4 ≤ fuel → e ≠ .fuel)) := by
+    (∃ e, parseToksWith fuel ts = (none, some e) ∧ e ≠ .panic ∧ (4 * ts.length + 4 ≤ fuel → e ≠ .fuel) ∧ EPos ts e) := by
   have h := parseBody_spec fuel ts
   unfold Sat at h
   unfold parseToksWith
@@ -32,7 +35,7 @@ theorem outcome (fuel : Nat) (ts : List Tok) :
     takes a token). -/
 theorem parse_total (ts : List Tok) (fuel : Nat) (hf : 4 * ts.length + 4 ≤ fuel) :
     (parseToksWith fuel ts).2 ≠ some .fuel := by
-  rcases outcome fuel ts with ⟨t, h, _⟩ | ⟨e, h, _, he⟩
+  rcases outcome fuel ts with ⟨t, h, _⟩ | ⟨e, h, _, he, _⟩
   · rw [h]; simp
   · rw [h]; simp; exact he hf
 
@@ -42,7 +45,7 @@ theorem parse_total_default (ts : List Tok) : (parseToks ts).2 ≠ some .fuel :=
 /-- **parse_never_panics.** No nil dereference inside the parser, for every token list (the four
     inputs `a ; "`, `a["` … of the repaired defects were exactly such dereferences). -/
 theorem parse_never_panics (ts : List Tok) : (parseToks ts).2 ≠ some .panic := by
-  rcases outcome (fuelFor ts) ts with ⟨t, h, _⟩ | ⟨e, h, hp, _⟩
+  rcases outcome (fuelFor ts) ts with ⟨t, h, _⟩ | ⟨e, h, hp, _, _⟩
   · unfold parseToks; rw [h]; simp
   · unfold parseToks; rw [h]; simp; exact hp
 
@@ -51,13 +54,37 @@ theorem parse_never_panics (ts : List Tok) : (parseToks ts).2 ≠ some .panic :=
     "out of fuel". -/
 theorem parse_error_xor_tree (ts : List Tok) :
     (∃ t, parseToks ts = (some t, none)) ∨ (∃ kind line col, parseToks ts = (none, some (.perr kind line col))) := by
-  rcases outcome (fuelFor ts) ts with ⟨t, h, _⟩ | ⟨e, h, hp, hfu⟩
+  rcases outcome (fuelFor ts) ts with ⟨t, h, _⟩ | ⟨e, h, hp, hfu, _⟩
   · exact Or.inl ⟨t, h⟩
   · right
     cases e with
     | perr k l c => exact ⟨k, l, c, h⟩
     | panic => exact absurd rfl hp
     | fuel => exact absurd rfl (hfu (by unfold fuelFor; omega))
+
+/-- **error_position_from_input** ("a positioned error"). The kind of a returned error is one of the six
+    kinds of parser/parsererror.go, and its line/column are those of a token OF THE INPUT — or the error is
+    the `Unexpected end` which `p.next()` builds from the zero token once the token stream is exhausted
+    (Line 0, Pos 0: printed without a position, parsererror.go:48; this case deviates from "positioned
+    error" and is the known finding `unexpected-end-unpositioned`, pinned by parser_main_test.go:144).
+    Which token, per kind (read off the model, `Lemmas/ParserSat.lean`, `ParserMain.lean`):
+    `Lexical error` / `Unknown term`: the offending token itself; `Term cannot start an expression`: the token
+    which was to start the expression; `Term can only start an expression`: the token found in operator
+    position on the same line; `Unexpected term`: the token found instead of the expected one (or the token
+    in front of it for `acceptChild`); positioned `Unexpected end`: the EOF token where another token was
+    required, or the first extra token after a complete program. -/
+theorem error_position_from_input (ts : List Tok) (k : String) (l : Nat) (c : Int)
+    (h : parseToks ts = (none, some (.perr k l c))) :
+    sixKinds k ∧ ((∃ t ∈ ts, t.line = l ∧ t.col = c) ∨ (k = "Unexpected end" ∧ l = 0 ∧ c = 0)) := by
+  rcases outcome (fuelFor ts) ts with ⟨t, h', _⟩ | ⟨e, h', _, _, hpos⟩
+  · unfold parseToks at h; rw [h'] at h; simp at h
+  · unfold parseToks at h; rw [h'] at h; simp at h; subst h; exact hpos
+
+/-- non-vacuity: `a +` + EOF gives the unpositioned end, `)` + EOF an error at the token `)` -/
+example : (parseToks [⟨7, 0, [97], true, false, 0, 1, 1⟩, ⟨33, 2, [43], false, false, 0, 1, 3⟩,
+    ⟨1, 3, [], false, false, 0, 1, 4⟩]).2 = some (.perr "Unexpected end" 0 0) := by decide
+example : (parseToks [⟨23, 0, [41], false, false, 0, 1, 1⟩, ⟨1, 1, [], false, false, 0, 1, 2⟩]).2
+    = some (.perr "Term cannot start an expression" 1 1) := by decide
 
 /-- the same for source text through the lexer model -/
 theorem parse_text_error_xor_tree (input : List Nat) :
@@ -106,6 +133,41 @@ theorem parse_wellformed (ts : List Tok) (t : Node) (h : parseToks ts = (some t,
   | ok n p => rw [hb] at hw h; simp at h; subst h; exact hw
   | err e p => rw [hb] at h; simp at h
 
+/-- **parse_wellformed_strict.** The strict form (`WellFormedS`, Model/ParserWFS.lean) which the consumers need
+    to WALK the tree: the clauses of `WellFormed`, and additionally every child in an operand position carries
+    a token (the token-less constructed nodes only where the parent's kind asks for them by name, the
+    token-less `true` only as the sole child of an `else`-guard), `as` = [identifier],
+    `except` = string* (as | identifier)? statements, the clauses of `try` and the name of function / sink /
+    mutex carry tokens; the root carries a token unless it is the top-level `statements` node.
+    All token lists, all kinds. Proof: `Ecal.Parse.S.specsW` (`Lemmas/ParserShapeS.lean`). -/
+theorem parse_wellformed_strict (ts : List Tok) (t : Node) (h : parseToks ts = (some t, none)) :
+    WellFormedRoot t = true := by
+  have hw := Ecal.Parse.S.parseBody_wf (fuelFor ts) ts
+  unfold Sat at hw
+  unfold parseToks parseToksWith at h
+  cases hb : parseBody (fuelFor ts) { toks := ts, node := none } with
+  | ok n p => rw [hb] at hw h; simp at h; subst h; exact hw
+  | err e p => rw [hb] at h; simp at h
+
+/-- **wellformed_walkable.** On a strictly well-formed tree every dereference of the consumer census
+    (`walkable`, Model/ParserWalk.lean: the unguarded `Children[k]` / `.Token` accesses of Validate, Eval and
+    PrettyPrint, transcribed with their source lines) is defined. The census is a transcription (trusted);
+    the harness additionally runs the real PrettyPrint and ParseWithRuntime + Validate on every returned tree. -/
+theorem wellformed_walkable (t : Node) (h : WellFormedS t = true) : walkable t = true := wf_walk t h
+
+/-- … hence every tree the parser returns can be walked -/
+theorem parse_walkable (ts : List Tok) (t : Node) (h : parseToks ts = (some t, none)) : walkable t = true := by
+  have := parse_wellformed_strict ts t h
+  simp only [WellFormedRoot, Bool.and_eq_true] at this
+  exact wf_walk t this.1
+
+/-- the trees of the review which the weaker `WellFormed` accepted are rejected by the strict predicate and are
+    indeed not walkable: `except[true(no token), statements]` (rt_statements.go:636 reads `.Token.Val`) -/
+example :
+    let bad : Node := .mk "except" (some ⟨70, 0, [], false, false, 0, 1, 1⟩) 0 .none .none
+      [some (.mk "true" none 0 .term .none [] []), some (.mk "statements" none 0 .none .none [] [])] []
+    WellFormed bad = true ∧ WellFormedS bad = false ∧ walkable bad = false := by decide
+
 /-- the same for source text through the lexer model -/
 theorem parse_text_wellformed (input : List Nat) (t : Node) (h : parse input = (some t, none)) :
     WellFormed t = true := parse_wellformed _ t h
@@ -115,7 +177,7 @@ theorem parse_text_wellformed (input : List Nat) (t : Node) (h : parse input = (
     induction `Ecal.Parse.specs`. -/
 theorem parse_wellformed_partial (ts : List Tok) (t : Node) (h : parseToks ts = (some t, none)) :
     okTree t = true := by
-  rcases outcome (fuelFor ts) ts with ⟨t', h', hn⟩ | ⟨e, h', _⟩
+  rcases outcome (fuelFor ts) ts with ⟨t', h', hn⟩ | ⟨e, h', _, _, _⟩
   · unfold parseToks at h; rw [h'] at h; simp at h; subst h; exact hn
   · unfold parseToks at h; rw [h'] at h; simp at h
 
@@ -141,26 +203,41 @@ example : WellFormed (.mk "" (some ⟨26, 4, [123], false, false, 0, 1, 5⟩) 0 
     okTree (.mk "" (some ⟨26, 4, [123], false, false, 0, 1, 5⟩) 0 .none .none
       [some (.mk "statements" none 0 .none .none [] [])] []) = false := by decide
 
-/-! ## The token channel: nothing of the parser is left at the return -/
+/-! ## The token channel: nothing of the parser is left at the return
+
+The transition system (`Model/TokenChannel.lean`) is tied to the source by the extracted synchronisation
+skeleton (`Gen/C07.lean`, regenerated on every run): package parser has exactly one `go` statement (in `Lex`,
+starting `(*lexer).run`), `close(l.tokens)` is the last statement of `run`, `ParseWithRuntime` defers
+`p.tokens.drain()` and `drain` is `for range b.tokens {}` in the calling goroutine. -/
+
+/-- **source_selects_sync.** The extracted skeleton selects the synchronous-drain transition system, with one
+    producer goroutine whose last channel operation is the close. (A `decide` over generated facts: if the
+    source changes — e.g. the drain is moved into a goroutine — this theorem no longer checks.) -/
+theorem source_selects_sync :
+    Ecal.Gen.C07.ok = true ∧ modeOf Ecal.Gen.C07.drainMode = some Mode.sync ∧ Ecal.Gen.C07.goStatements = 1 ∧
+    Ecal.Gen.C07.goWhere = "Lex" ∧ Ecal.Gen.C07.closeLastInRun = true ∧ Ecal.Gen.C07.deferDrain = true := by decide
 
 /-- measure of what is still to happen once the consumer has stopped parsing -/
 def todo (s : St) : Nat :=
-  s.toSend + (if s.prod = .running then 1 else 0) + (if s.cons = .draining then 1 else 0)
+  s.toSend + (match s.prod with | .running => 2 | .closed => 1 | .terminated => 0) +
+  (if s.cons = .draining then 1 else 0)
 
-/-- invariant of the synchronous drain: no helper ever exists, and a returned call means a terminated producer -/
-def SyncInv (s : St) : Prop := s.helper = false ∧ (s.cons = .returned → s.prod = .terminated)
+/-- invariant of the synchronous drain: no helper ever exists, and a returned call means a closed channel -/
+def SyncInv (s : St) : Prop := s.helper = false ∧ (s.cons = .returned → s.prod ≠ .running)
 
 theorem step_inv (s s' : St) (e : Ev) (h : step .sync s e = some s') (hi : SyncInv s) : SyncInv s' := by
   obtain ⟨hh, hr⟩ := hi
   cases e <;> simp only [step] at h <;> (repeat' split at h) <;>
     simp_all [SyncInv] <;> (subst h; simp_all)
 
-/-- **no_producer_left.** In the channel model of the code as it is (deferred SYNCHRONOUS drain): for every
-    number of tokens, every interleaving and every point at which the parse function stops (any event
-    sequence is allowed, so the consumer may stop after any number of receives), in every state in which
-    `ParseWithRuntime` has returned — in particular AT the return event — the lexer goroutine has
-    terminated and no other goroutine of the parser exists (`clean`). -/
-theorem no_producer_left (n : Nat) (es : List Ev) (s : St)
+/-- **producer_done_at_return** (was `no_producer_left`). In the transition system selected by the source
+    (`source_selects_sync`): for every number of tokens, every interleaving and every point at which the parse
+    function stops (any event sequence is allowed, so the consumer may stop after any number of receives), in
+    every state in which `ParseWithRuntime` has returned — in particular AT the return event — no helper
+    goroutine exists and the lexer goroutine is past `close(l.tokens)`, its last statement (`clean`). The drain
+    loop's exit condition is "the channel is observed closed", NOT "the producer is gone": that the two
+    coincide up to the producer's own final `exit` step is the content. -/
+theorem producer_done_at_return (n : Nat) (es : List Ev) (s : St)
     (h : exec .sync (init n) es = some s) (hr : s.cons = .returned) : clean s = true := by
   have gen : ∀ (es : List Ev) (s0 s : St), SyncInv s0 → exec .sync s0 es = some s → SyncInv s := by
     intro es
@@ -175,6 +252,18 @@ theorem no_producer_left (n : Nat) (es : List Ev) (s : St)
   have := gen es (init n) s (by simp [SyncInv, init]) h
   simp [clean, this.1, this.2 hr]
 
+/-- **producer_exits_alone.** From a clean state the only thing that can still happen is the producer's own
+    `exit` (no partner needed), after which nothing of the parser can move: the goroutine is gone. -/
+theorem producer_exits_alone (s : St) (hc : clean s = true) (hr : s.cons = .returned) :
+    (s.prod = .terminated ∧ canMove .sync s = false) ∨
+    (∃ s', step .sync s .exit = some s' ∧ s'.prod = .terminated ∧ canMove .sync s' = false ∧
+      ∀ e, e ≠ .exit → step .sync s e = none) := by
+  obtain ⟨n, p, c, hp⟩ := s
+  simp at hr; subst hr
+  cases p <;> cases hp <;> simp_all [clean, canMove, allEv, step]
+  intro e he
+  cases e <;> simp_all [step]
+
 example : ∃ s, exec .sync (init 3) [.recv, .stop, .drainRecv, .drainRecv, .close, .drainEnd] = some s ∧
     s.cons = .returned := by decide
 
@@ -185,7 +274,7 @@ theorem drain_progress (s : St) (h : s.cons ≠ .returned) : canMove .sync s = t
   cases c <;> cases p <;> cases n <;> simp_all [canMove, allEv, step]
 
 /-- **the call does return (bound).** Once the consumer is in the deferred drain (and no helper exists, which
-    is invariant), every schedule has at most `toSend + 2` further steps (then `ParseWithRuntime` has
+    is invariant), every schedule has at most `toSend + 3` further steps (then `ParseWithRuntime` has
     returned and nothing is left to run). -/
 theorem drain_bounded (es : List Ev) (s s' : St) (hc : s.cons ≠ .parsing) (hh : s.helper = false)
     (h : exec .sync s es = some s') : es.length + todo s' ≤ todo s := by
@@ -198,7 +287,7 @@ theorem drain_bounded (es : List Ev) (s s' : St) (hc : s.cons ≠ .parsing) (hh 
       have key : s1.cons ≠ .parsing ∧ s1.helper = false ∧ todo s1 + 1 ≤ todo s := by
         obtain ⟨n, p, c, hp⟩ := s
         cases e <;> simp only [step] at h1 <;> (repeat' split at h1) <;>
-          simp_all [todo] <;> (subst h1; simp_all <;> omega)
+          simp_all [todo] <;> (subst h1; simp_all <;> (try split) <;> omega)
       have := ih s1 key.1 key.2.1 h
       simp only [List.length_cons]; omega
     · simp at h
@@ -218,5 +307,31 @@ theorem async_drain_outlives_call :
     ∃ s, exec .async (init 2) [.recv, .stop] = some s ∧ s.cons = .returned ∧ s.prod = .running ∧
       s.helper = true ∧ clean s = false ∧
       (∃ s', exec .async s [.helpRecv, .close, .helpEnd] = some s' ∧ clean s' = true) := by decide
+
+/-! ## The grammar table of the model is the one in the source -/
+
+def nudName : Ecal.Parse.Nud → String
+  | .none => "nil" | .term => "ndTerm" | .identifier => "ndIdentifier" | .inner => "ndInner" | .list => "ndList"
+  | .map => "ndMap" | .prefix => "ndPrefix" | .import_ => "ndImport" | .sink => "ndSkink" | .func => "ndFunc"
+  | .return_ => "ndReturn" | .guard => "ndGuard" | .loop => "ndLoop" | .try_ => "ndTry" | .mutex => "ndMutex"
+  | .block => "parseInnerStatements"
+def ledName : Ecal.Parse.Led → String | .none => "nil" | .infix => "ldInfix"
+
+/-- one entry of the extracted astNodeMap agrees with `Parse.table` -/
+def entryAgrees (e : Nat × String × Nat × String × String) : Bool :=
+  match table e.1 with
+  | some (nm, b, x, l) => nm = e.2.1 && b = e.2.2.1 && nudName x = e.2.2.2.1 && ledName l = e.2.2.2.2
+  | none => false
+
+/-- **table_matches_source.** `Parse.table` (the model's grammar table) is exactly the `astNodeMap` of the tree
+    under test, extracted by `harness C07 -tool gen` on every run: every extracted entry has the same node
+    name, binding and null/left denotation in the model, the model has no further entry (ids < 200), the
+    block-start brace entry is the one `instanceOf` uses, and the ids of the error / comment tokens are the
+    ones `nextNode` / `splitComments` test. -/
+theorem table_matches_source :
+    Ecal.Gen.C07.ok = true ∧ Ecal.Gen.C07.astNodeMap.all entryAgrees = true ∧
+    (List.range 200).all (fun id => (table id).isNone || Ecal.Gen.C07.astNodeMap.any (·.1 = id)) = true ∧
+    Ecal.Gen.C07.blockBrace = (T_LBRACE, "", 0, "nil", "nil") ∧
+    Ecal.Gen.C07.tokenError = 0 ∧ Ecal.Gen.C07.tokenPreComment = 3 ∧ Ecal.Gen.C07.tokenPostComment = 4 := by decide
 
 end Ecal.Props.C07
